@@ -59,4 +59,21 @@ def Clean (v : Variant) (d : List Ev) : Bool :=
   (v.fixAny || !usesAny d) && (v.trkDoc || closesAll v d) && (v.regsDoc || !assignsReg d) &&
   (v.classDoc || !patchesClass d) && (v.colsDoc || !definesCol d)
 
+/-! ### what a document writes and reads of the two data the current code still keeps on classes -/
+
+/-- registers the document assigns (from a literal or from another register) -/
+def writesOf (d : List Ev) : List Nat :=
+  d.filterMap (fun e => match e with | .assign r _ => some r | .copy r _ => some r | _ => none)
+/-- column types the document defines -/
+def newcolsOf (d : List Ev) : List Nat := d.filterMap (fun e => match e with | .newcol n => some n | _ => none)
+/-- the event does not read a register of `R` nor test a column type of `C` -/
+def evAvoids (R C : List Nat) : Ev → Bool
+  | .use r => !R.contains r
+  | .copy _ q => !R.contains q
+  | .usecol n => !C.contains n
+  | _ => true
+/-- `B` reads no register that an earlier document assigned and uses no column type that one defined -/
+def Unobserved (hist : List (List Ev)) (B : List Ev) : Bool :=
+  B.all (evAvoids (hist.flatMap writesOf) (hist.flatMap newcolsOf))
+
 end PlasVerif.Spec.Isolation
